@@ -18,7 +18,7 @@ if [ $c0 -eq 0 ] && [ $c1 -ne 0 ] && [ $ok -eq 1 ]; then
 import json, sys
 try: m = json.load(open(sys.argv[1]))
 except Exception as e: m = {'meta_unreadable': str(e)}
-m['round'] = {'A': 1, 'B': 1, 'C': 2, 'D': 2, 'E': 3, 'F': 3, 'G': 4, 'H': 4, 'I': 4, 'J': 4, 'K': 5, 'L': 5, 'M': 5, 'N': 5, 'O': 6, 'P': 6}.get(sys.argv[2].rstrip('/').split('/')[-2][-1], 1)
+m['round'] = {'A': 1, 'B': 1, 'C': 2, 'D': 2, 'E': 3, 'F': 3, 'G': 4, 'H': 4, 'I': 4, 'J': 4, 'K': 5, 'L': 5, 'M': 5, 'N': 5, 'O': 6, 'P': 6, 'Q': 7}.get(sys.argv[2].rstrip('/').split('/')[-2][-1], 1)
 m['confirmed_by_me'] = {'demo_on_clean_tree_exit': int(sys.argv[3]), 'demo_with_change_exit': int(sys.argv[4]), 'suite_with_change': sys.argv[5],
                         'how': 'git apply patch.diff in a scratch worktree of /repo HEAD; PYTHONPATH=<worktree> python demo.py; pytest tests/unit tests/functional -n 8; git checkout -- .'}
 json.dump(m, open(sys.argv[2], 'w'), indent=1)
